@@ -752,10 +752,20 @@ func ruleCodecErrorsHonoured(c *Ctx, rule string) {
 				return
 			}
 			m := call.Call.Method
-			if m.Pkg() == nil || !strings.HasSuffix(m.Pkg().Path(), "grpc/encoding") || (m.Name() != "Unmarshal" && m.Name() != "Marshal") {
+			isCodec := m.Pkg() != nil && strings.HasSuffix(m.Pkg().Path(), "grpc/encoding") && (m.Name() == "Unmarshal" || m.Name() == "Marshal")
+			// … and a message whose transport write failed is not reported as sent
+			isWrite := false
+			for _, w := range p.transportOps(f, "Write", false) {
+				if w == call {
+					isWrite = true
+				}
+			}
+			if !isCodec && !isWrite {
 				return
 			}
-			n++
+			if isCodec {
+				n++
+			}
 			var errV ssa.Value = call
 			if m.Name() == "Marshal" {
 				ex := extractOf(call, 1)
@@ -772,6 +782,9 @@ func ruleCodecErrorsHonoured(c *Ctx, rule string) {
 					vs := retVals(x)
 					return len(vs) > 0 && isNilConst(vs[len(vs)-1]) && types.Identical(vs[len(vs)-1].Type(), types.Universe.Lookup("error").Type())
 				case *ssa.Call:
+					if x == call {
+						return false
+					}
 					for _, w := range p.transportOps(f, "Write", false) {
 						if w == x {
 							return true
@@ -796,7 +809,11 @@ func ruleCodecErrorsHonoured(c *Ctx, rule string) {
 			if hit != nil {
 				where = p.ipos(hit)
 			}
-			c.check(rule, p.cname(f)+":codec."+m.Name()+":failure-not-success", hit == nil, "no successful return and no transport write is reachable from the codec call without passing `err == nil` (reached: "+where+")", p.ipos(i))
+			kind := "codec."
+			if isWrite {
+				kind = "transport."
+			}
+			c.check(rule, p.cname(f)+":"+kind+m.Name()+":failure-not-success", hit == nil, "no successful return and no further transport write is reachable from this call without passing `err == nil` (reached: "+where+")", p.ipos(i))
 		})
 	}
 	c.floor(rule, "codec Marshal / Unmarshal calls", n, 6)
